@@ -65,7 +65,7 @@ fn make_set(env: &Env, rng: &mut Rng, bundled: &Arc<Voice>) -> Result<Set, Strin
 pub fn run(ctx: &mut Ctx) {
     let env = Env::new(ctx);
     let bundled = Arc::new(load_htsvoice_file(&env.bundled_path).expect("bundled loads"));
-    let n = ctx.n(480, 12000);
+    let n = ctx.n(480, 40000);
     ctx.run_cases("parameters", n, false, |ctx, rng, idx| {
         let set = match make_set(&env, rng, &bundled) {
             Ok(s) => s,
@@ -247,7 +247,7 @@ pub fn run(ctx: &mut Ctx) {
     });
 
     // ---- end to end: vertex weights reproduce the first voice's waveform bit for bit
-    let n = ctx.n(48, 600);
+    let n = ctx.n(48, 2000);
     ctx.run_cases("vertex-waveform", n, false, |ctx, rng, _| {
         let set = match make_set(&env, rng, &bundled) {
             Ok(s) => s,
